@@ -332,7 +332,8 @@ Definition do_layer_lazy (size_of : N -> N) (emp : N) (sv : served2) (r : run2) 
   let h := dhex (ldg l) in
   if has_blob size_of (rs2 r) h (lsz l) then (r, true)
   else
-    let (r1, failed) := do_chunks size_of emp r h (chunks_of sv h) 0%nat false in
+    let fresh := match written (rs2 r) h with [] => true | _ => false end in
+    let (r1, failed) := do_chunks size_of emp fresh r h (chunks_of sv h) 0%nat false in
     if failed then (r1, false)
     else if Nat.eqb (length (rt2 r1)) (length (rt2 r)) then (r1, true)
     else if covers (written (rs2 r1) h) (length (chunks_of sv h)) then (emit2 r1 (XCommit h), true)
@@ -385,3 +386,15 @@ Proof.
   - destruct (pull2_ok size_of emp He sv Hg s n Hgd) as [_ [H1 H2]]. apply H1, H2, Hh.
 Qed.
 Print Assumptions C12_pull2_redo_same_partial.
+
+(** Chunk records that outlived their layer (an old handler removed the blob; the records are blobs of their own): the
+    scratch file is empty when the pull opens it, no record counts (Chunker.Fresh), every chunk is fetched again and
+    the pull succeeds with all layers committed. *)
+Example C12_pull2_stale_records :
+  let s := MkSt2 (MkStore [] [(4, 4); (5, 5); (6, 6); (3, 3)] []) [] in
+  has_rec p2_sz s 4 = true /\ has_rec p2_sz s 5 = true /\ has_rec p2_sz s 6 = true /\
+  snd (pull2 p2_sz 9 s p2_n p2_sv) = ROk /\
+  man_okb p2_sz (base (exec2 p2_sz 9 s p2_n p2_sv)) (s2_man p2_sv) = true /\
+  effects2 p2_sz 9 s p2_n p2_sv =
+    [XPut 1 0; XPut 1 1; XCommit 1; XPut 2 0; XCommit 2; XBase (ETruncMan p2_n); XBase (EWriteMan p2_n (Readable (s2_man p2_sv)))].
+Proof. vm_compute. repeat split. Qed.
